@@ -14,6 +14,8 @@ ON_ADD_EVENT_NAME = 'on_add'
 ON_REMOVE_EVENT_NAME = 'on_remove'
 ON_SINGLE_DISPATCH_EVENT_NAME = 'on_single_dispatch'
 
+_NOTHING = object()
+
 
 class Processor(abc.ABC):
     """Main executor over entities and components.
@@ -380,7 +382,9 @@ class World(EventDispatcher):
         assert isinstance(entity, Hashable), (
             f'Entity ID must be hashble, found {entity}, which is not')
 
-        removed = None
+        # (None is a legitimate component: a private marker tells that
+        # nothing was removed yet)
+        removed = _NOTHING
         fringe = [component_type]
         visited = set()
 
@@ -407,7 +411,7 @@ class World(EventDispatcher):
                     # Nothing is left to be deleted at next process
                     self._dead_entities.discard(entity)
 
-                if removed is not None:
+                if removed is not _NOTHING:
                     # No need to check if it is an handler, just check
                     # if it implements the interface.
                     if not hasattr(removed, '__events__'):
@@ -437,7 +441,7 @@ class World(EventDispatcher):
 
             fringe += type.__subclasses__(subtype)
 
-        return removed
+        return None if removed is _NOTHING else removed
 
     def add_processor(self, processor: Processor,
                       priority: Optional[int] = None):
